@@ -6,6 +6,9 @@ V = os.path.dirname(os.path.dirname(os.path.abspath(__file__)))
 # id -> (technique, level text, level note, design ref)
 PROOF_NOTE = "Lean 4.33 kernel; axioms propext/Quot.sound/Classical.choice only (audited per run); translator go/extract and the layout interpreter Model/Layout.lean validated against the real IEncode/IDecode by the correspondence run; Go runtime/stdlib modelled (DESIGN.md 2.6)."
 CLAIMED = {
+ "C09": ("Lean 4 theorems quantifying over every enumeration order and every output of a sorting routine that satisfies sort.Sort's contract (permutation + sortedness): the head is the unique minimum by (parts, priority), hence a function of the candidate set; priority tables regenerated from init() and shown injective by `decide`; fallback / error clauses on the model; correspondence and direct comparison with an independent reference selection under shuffled orders, duplicates and GOMAXPROCS 1..16",
+         "The adversary (map iteration order, goroutine completion, the sort algorithm) is a universally quantified permutation in the theorems; what is proved is determinism and minimality of the selection. That the goroutines Build starts share no mutable state is a Go memory-model fact outside the model: each request is re-run under shuffled order, duplicates and four GOMAXPROCS settings and compared (see C13 for the race detector runs).",
+         PROOF_NOTE + " sort.Sort assumed to satisfy its contract; errgroup / goroutine scheduling sampled.", "DESIGN.md 4/C09"),
  "C05": ("Lean 4: generic theorem that a per-scalar prefix code round-trips whole texts and refuses any text containing a scalar outside its repertoire; instances proved for ASCII, UTF-16BE with surrogate pairs (arithmetic lemma) and GSM 7-bit (regenerated tables); coding selection / decoder pairing by `decide` over 0..255; Windows-1252 and GB18030 (golang.org/x/text) covered by exhaustive per-scalar execution, not by the kernel (partial)",
          "Proof for ASCII, UCS-2/UTF-16 and GSM 7-bit on all texts; the selection tables are hand-written Lean tables tied to NewCMPPCodec/NewSMPPCodec/Decode*Content by complete enumeration of 0..255 on every run. For Latin-1 (Windows-1252) and GB18030 the per-scalar hypothesis of the generic theorem is established by executing the real transformers on every Unicode scalar alone and in context (thorough tier: all 1,112,064; quick: 13k+), with the GB18030 private-use carve-out; packed GSM 7-bit relies on the C08 packing model with the two end-of-message ambiguities carved out exactly.",
          PROOF_NOTE + " golang.org/x/text transformers are exercised, not modelled.", "DESIGN.md 4/C05"),
